@@ -14,7 +14,7 @@ EXT = {"edif": ".edf", "verilog": ".v", "eblif": ".eblif"}
 # therefore minutes of work, not a hang. Such inputs are outside what the fuzzer is allowed to produce.
 HUGE_NUMBER = re.compile(r"\d{5,}")
 KINDS = ["truncate", "truncate", "delete", "duplicate", "replace", "replace", "swap", "dangling", "dangling",
-         "unsupported", "all-truncations", "garbage", "recursive"]
+         "unsupported", "all-truncations", "garbage", "recursive", "recursive"]
 JUNK = ["(", ")", "0", "zz", '"s"', "cell", "net", "module", "endmodule", ";", ",", ".", "[", "]", "{", "}",
         ".model", ".end", ".subckt", "=", "\\", "`celldefine", "(*", "*)", "assign", "wire", "#"]
 
@@ -231,9 +231,10 @@ class C15(Prop):
                 ends = [k for k in range(n) if toks[k] == "endmodule"]
                 if not mods or len(ends) != len(mods):
                     return [(join(fmt, toks[:i]), False, "truncate")]
-                t, s_ = pos % len(mods), w % len(mods)
+                t = pos % len(mods)
+                s_ = t if w % 2 else (w // 2) % len(mods)   # half of them: direct self-instantiation
                 ins = []
-                for r in range(1 + w % 3):
+                for r in range(1 + (w // 2) % 3):
                     ins += [mods[s_], "rec_%d" % r, "(", ")", ";"]
                 k = ends[t]
                 return [(join(fmt, toks[:k] + ins + toks[k:]), False, "recursive")]
@@ -242,9 +243,10 @@ class C15(Prop):
                 ends = [k for k in range(n) if toks[k] == ".end"]
                 if not models or len(ends) != len(models):
                     return [(join(fmt, toks[:i]), False, "truncate")]
-                t, s_ = pos % len(models), w % len(models)
+                t = pos % len(models)
+                s_ = t if w % 2 else (w // 2) % len(models)
                 ins = []
-                for r in range(1 + w % 3):
+                for r in range(1 + (w // 2) % 3):
                     ins += [".subckt", models[s_], "zz=zz_%d" % r, "\n"]
                 k = ends[t]
                 return [(join(fmt, toks[:k] + ins + toks[k:]), False, "recursive")]
